@@ -129,7 +129,7 @@ def v3 : Ver := [51]
 
 /-- `a 1 → c`, `a 3` has no dependencies -/
 def dbKeep : Db :=
-  { decls := [⟨nA, v1, [1], [(.always, .dep nC false false none none)]⟩, ⟨nA, v3, [2], []⟩, ⟨nC, v1, [3], []⟩],
+  { decls := [⟨nA, v1, [1], [(.always, .dep nC false false none none [])]⟩, ⟨nA, v3, [2], []⟩, ⟨nC, v1, [3], []⟩],
     tags := [(tagCurrent, nA, v1), (tagCurrent, nC, v1)] }
 
 def envOf : Res → Option Setup.Env
@@ -153,8 +153,8 @@ def v2 : Ver := [50]
 
 /-- `p 1 → z`, `p 2` has no dependencies, the bystander `x 1 → z` -/
 def dbNarrow : Db :=
-  { decls := [⟨nP, v1, [1], [(.always, .dep nZ false false none none)]⟩, ⟨nP, v2, [2], []⟩,
-              ⟨nX, v1, [3], [(.always, .dep nZ false false none none)]⟩, ⟨nZ, v1, [4], []⟩],
+  { decls := [⟨nP, v1, [1], [(.always, .dep nZ false false none none [])]⟩, ⟨nP, v2, [2], []⟩,
+              ⟨nX, v1, [3], [(.always, .dep nZ false false none none [])]⟩, ⟨nZ, v1, [4], []⟩],
     tags := [(tagCurrent, nP, v1), (tagCurrent, nX, v1), (tagCurrent, nZ, v1)] }
 
 /-- Under the reading "reachable through the tables of the newly selected versions only", `z` is not reachable from
